@@ -1,8 +1,8 @@
 (** C14 — the URL the Go client builds for (name, id…) reaches the router as exactly the segments base/api/v1/mailbox/name/id…: for every name without '/' and ' ' that is not empty, "." or "..", every id / base-path segment made of unreserved characters *)
 From IV Require Import Base.Bytes Model.StoreSpec Model.Rest Proofs.RestRoute Proofs.RestClient.
-Theorem client_roundtrip : forall mfa cfg base name tail st m body,
+Theorem client_roundtrip : forall mfa cfg srcok base name tail st m body,
   good_name name -> Forall good_seg base -> Forall good_seg tail ->
-  serve mfa cfg base st {| rq_meth := m; rq_path := client_wire (join_slash base) (client_uri name tail); rq_body := body |}
-  = dispatch mfa cfg st m body (route base m (base ++ [s_api; s_v1; s_mailbox; name] ++ tail)).
+  serve mfa cfg srcok base st {| rq_meth := m; rq_path := client_wire (join_slash base) (client_uri name tail); rq_body := body |}
+  = dispatch mfa cfg srcok st m body (route base m (base ++ [s_api; s_v1; s_mailbox; name] ++ tail)).
 Proof. exact RestClient.client_roundtrip. Qed.
 Print Assumptions client_roundtrip.
